@@ -145,7 +145,7 @@ CHECKS = {
         'zeroing a diagonal entry gives determinant 0, real antisymmetric matrices of odd dimension have determinant 0; every accepted constructor combination asking for determinant 1 reaches a defined branch, the rejected ones are the documented impossibilities. '
         'Tie: scripted RNG through the scalar samplers (exact), apply_symmetry on exact dyadic arrays for all symmetry x traceless, the whole constructor grid (dimension 2-5 x symmetry x traceless x determinant x complex) against the model with monitored draws of all 214 accepted combinations (shape, realness, symmetry, trace, determinant, norm), '
         'vector/matrix/tensor/triangular/identity-multiple samplers, random functions (amplitudes read from the closure; value compared with the model formula, bound, fixedness, arity, output dimension).',
-   note=PROOF_NOTE + ' Partial: the RNG, np.linalg.det/eigvals numerics and the retry loop are not modelled (monitored within 1e-7); the matrix-algebra theorems are Mathlib statements about the operations apply_symmetry / make_det_one perform, tied to the code through the executable entry-list model by comparison; Orthogonal/Unitary samplers need scipy and are excluded.',
+   note=PROOF_NOTE + ' Partial: the RNG, np.linalg.det/eigvals numerics and the retry loop are not modelled (monitored within 1e-7); the matrix-algebra theorems are Mathlib statements about the operations apply_symmetry / make_det_one perform; for apply_symmetry the same facts (symmetric / antisymmetric / hermitian / antihermitian / diagonal entries, trace exactly zero after the traceless step, off-diagonal entries untouched) are additionally proved directly on the executable entry-list model that the correspondence drives (applySymmetry_entries, applySymmetry_traceless); make_det_one / make_det_zero remain Mathlib-level only; Orthogonal/Unitary samplers need scipy and are excluded.',
    technique='Lean 4 proof (interval arithmetic, triangle-inequality bound, Mathlib matrix algebra, decide over the constructor table) + scripted-RNG correspondence + contract monitor on real draws', design='§6 C12'),
  'C15': dict(
    text='The library\'s own function definitions (sec csc cot arcsec arccsc arccot sech csch coth arcsech arccsch arccoth, the bodies of arctan2 and kronecker) are TRANSLATED from the AST of mathfuncs.py into Lean definitions over the reals on every run, and the default function / constant / suffix tables are read from the live module; '
